@@ -144,6 +144,108 @@ theorem prepare_nodes_exact (po : List String) (wf : Wf) (g : Graph String) (ite
   have := runOps_ids hrun
   simpa [Graph.empty] using this
 
+/-! ### several references in one expression; several tagged fields on one source
+
+The operation sequence connects the consumer to the producer of EVERY dependency path of an expression with a tolerated
+(idempotent) `ConnectDependency`: a dependency whose producer the node is already connected to - by an earlier expression
+of the same node, or by an earlier path of the same expression - is skipped, and the walk goes on with the next one. -/
+
+/-- Every reference of a plain expression gets its `and` edge - whichever other expression of the same node, or earlier
+reference of the same expression, already connected the node to some producer: the statement quantifies over every
+dependency path `p` of `e` separately, with no hypothesis about the others. -/
+theorem prepare_every_ref_connected (po : List String) (wf : Wf) (g : Graph String) (items : List (String × Item))
+    (h : prepare po wf = .ok (g, items)) (cur : NodeId) (path : List String) (e : Expr)
+    (hσ : Site.val cur path (.expr e) ∈ wf.allSites) :
+    ∀ p ∈ Expr.deps e, ∃ a, wf.resolve po p = .ok a ∧ (a.render, cur.render, Dep.and) ∈ g.edges := by
+  intro p hp
+  obtain ⟨a, ha, _, _⟩ := prepare_refs_exist po wf g items h _ hσ e (by simp [Site.exprs]) p hp
+  refine ⟨a, ha, prepare_edges_complete po wf g items h _ (Or.inr (Or.inr ?_))⟩
+  refine List.mem_map.2 ⟨(a, cur, Dep.and), ?_, rfl⟩
+  refine List.mem_flatMap.2 ⟨_, hσ, ?_⟩
+  simp only [siteEdges]
+  exact mem_refEdges.2 ⟨p, hp, a, ha, rfl⟩
+
+/-- Two references of one expression that lead to the SAME producer node (two fields of one stage output) do not stop
+the walk: a third reference to another producer is connected as well. -/
+theorem prepare_duplicate_ref_does_not_stop (po : List String) (wf : Wf) (g : Graph String) (items : List (String × Item))
+    (h : prepare po wf = .ok (g, items)) (cur : NodeId) (path : List String) (e : Expr)
+    (hσ : Site.val cur path (.expr e) ∈ wf.allSites) (p₁ p₂ p₃ : List String) (a b : NodeId)
+    (h₁ : p₁ ∈ Expr.deps e) (_h₂ : p₂ ∈ Expr.deps e) (h₃ : p₃ ∈ Expr.deps e)
+    (r₁ : wf.resolve po p₁ = .ok a) (_r₂ : wf.resolve po p₂ = .ok a) (r₃ : wf.resolve po p₃ = .ok b) :
+    (a.render, cur.render, Dep.and) ∈ g.edges ∧ (b.render, cur.render, Dep.and) ∈ g.edges := by
+  obtain ⟨a', ha', e1⟩ := prepare_every_ref_connected po wf g items h cur path e hσ p₁ h₁
+  obtain ⟨b', hb', e3⟩ := prepare_every_ref_connected po wf g items h cur path e hσ p₃ h₃
+  rw [r₁] at ha'
+  rw [r₃] at hb'
+  cases ha'
+  cases hb'
+  exact ⟨e1, e3⟩
+
+/-- An optional field (`!wait-optional` / `!soft-optional`) hangs off its OWN group node: the holder depends on the group
+with the kind the tag requires (completion-and / optional) and the group requires every source of the expression. -/
+theorem prepare_optional_edges (po : List String) (wf : Wf) (g : Graph String) (items : List (String × Item))
+    (h : prepare po wf = .ok (g, items)) (cur : NodeId) (path : List String) (w : Bool) (e : Expr)
+    (hσ : Site.val cur path (.optional w e) ∈ wf.allSites) :
+    ((NodeId.group cur path).render, cur.render, optDep w) ∈ g.edges ∧
+    ∀ p ∈ Expr.deps e, ∃ a, wf.resolve po p = .ok a ∧ (a.render, (NodeId.group cur path).render, Dep.and) ∈ g.edges := by
+  have key : ∀ x : Edge, x ∈ siteEdges (wf.resolve po) (.val cur path (.optional w e)) → renderEdge x ∈ g.edges := by
+    intro x hx
+    refine prepare_edges_complete po wf g items h _ (Or.inr (Or.inr ?_))
+    exact List.mem_map.2 ⟨x, List.mem_flatMap.2 ⟨_, hσ, hx⟩, rfl⟩
+  refine ⟨key (.group cur path, cur, optDep w) (by simp [siteEdges]), ?_⟩
+  intro p hp
+  obtain ⟨a, ha, _, _⟩ := prepare_refs_exist po wf g items h _ hσ e (by simp [Site.exprs]) p hp
+  refine ⟨a, ha, key (a, .group cur path, Dep.and) ?_⟩
+  simp only [siteEdges, List.mem_cons]
+  exact Or.inr (mem_refEdges.2 ⟨p, hp, a, ha, rfl⟩)
+
+/-- Several tagged fields of ONE object (different paths below the same holder) - on the same source or not - get
+DISTINCT group nodes, also as Go string ids, and both are nodes of the graph. -/
+theorem prepare_tagged_fields_distinct_groups (po : List String) (wf : Wf) (g : Graph String) (items : List (String × Item))
+    (h : prepare po wf = .ok (g, items)) (cur : NodeId) (p₁ p₂ : List String) (w₁ w₂ : Bool) (e₁ e₂ : Expr)
+    (h₁ : Site.val cur p₁ (.optional w₁ e₁) ∈ wf.allSites) (h₂ : Site.val cur p₂ (.optional w₂ e₂) ∈ wf.allSites)
+    (hne : p₁ ≠ p₂) :
+    (NodeId.group cur p₁).render ≠ (NodeId.group cur p₂).render ∧
+    g.has (NodeId.group cur p₁).render = true ∧ g.has (NodeId.group cur p₂).render = true := by
+  obtain ⟨hrun, _, _⟩ := prepare_ok h
+  have n₁ : Op.node (.group cur p₁) ∈ wf.ops po := mem_ops.2 (Or.inr ⟨_, h₁, by simp [siteOps]⟩)
+  have n₂ : Op.node (.group cur p₂) ∈ wf.ops po := mem_ops.2 (Or.inr ⟨_, h₂, by simp [siteOps]⟩)
+  have ids := runOps_ids hrun
+  simp only [Graph.empty, List.map_nil, List.nil_append] at ids
+  refine ⟨?_, ?_, ?_⟩
+  · intro heq
+    have := render_inj_of_run hrun n₁ n₂ heq
+    simp only [NodeId.group.injEq, true_and] at this
+    exact hne this
+  · rw [Graph.has_iff_mem_ids, ids]
+    exact List.mem_map.2 ⟨_, mem_nodeIds.2 n₁, rfl⟩
+  · rw [Graph.has_iff_mem_ids, ids]
+    exact List.mem_map.2 ⟨_, mem_nodeIds.2 n₂, rfl⟩
+
+/-- A `!wait-optional` and a `!soft-optional` field of one object that read the same source: the holder has a
+completion-and dependency on one group and an optional dependency on ANOTHER group, and each group requires the source.
+(One edge per node pair: a direct holder <- source edge could carry only one of the two kinds.) -/
+theorem prepare_wait_and_soft_on_same_source (po : List String) (wf : Wf) (g : Graph String) (items : List (String × Item))
+    (h : prepare po wf = .ok (g, items)) (cur : NodeId) (pw ps : List String) (ew es : Expr)
+    (hw : Site.val cur pw (.optional true ew) ∈ wf.allSites) (hs : Site.val cur ps (.optional false es) ∈ wf.allSites)
+    (hne : pw ≠ ps) (p q : List String) (hp : p ∈ Expr.deps ew) (hq : q ∈ Expr.deps es) (src : NodeId)
+    (rp : wf.resolve po p = .ok src) (rq : wf.resolve po q = .ok src) :
+    (NodeId.group cur pw).render ≠ (NodeId.group cur ps).render ∧
+    ((NodeId.group cur pw).render, cur.render, Dep.cand) ∈ g.edges ∧
+    ((NodeId.group cur ps).render, cur.render, Dep.opt) ∈ g.edges ∧
+    (src.render, (NodeId.group cur pw).render, Dep.and) ∈ g.edges ∧
+    (src.render, (NodeId.group cur ps).render, Dep.and) ∈ g.edges := by
+  obtain ⟨e1, r1⟩ := prepare_optional_edges po wf g items h cur pw true ew hw
+  obtain ⟨e2, r2⟩ := prepare_optional_edges po wf g items h cur ps false es hs
+  obtain ⟨a, ha, ea⟩ := r1 p hp
+  obtain ⟨b, hb, eb⟩ := r2 q hq
+  rw [rp] at ha
+  rw [rq] at hb
+  cases ha
+  cases hb
+  exact ⟨(prepare_tagged_fields_distinct_groups po wf g items h cur pw ps true false ew es hw hs hne).1,
+    by simpa [optDep] using e1, by simpa [optDep] using e2, ea, eb⟩
+
 /-! ### non-vacuity -/
 
 def po : List String := ["alt", "cancelled", "error", "success"]
@@ -189,5 +291,87 @@ example : verdictOf (prepare po demoRootRef) = "rejected:dangling" := by decide 
 example : ("steps.b.starting.s", "steps.b.starting", Dep.cand) ∈ impliedEdges po demo
     ∧ ("steps.a.outputs.success", "steps.b.starting.s", Dep.and) ∈ impliedEdges po demo
     ∧ ("outputs.success.r.ok", "outputs.success.r", Dep.or) ∈ impliedEdges po demo := by decide +kernel
+
+/-! ### non-vacuity for expressions with several references, mixed optional tags and several loop steps
+
+A binary operation `l op r` of the expression language is the call `op(l, r)` of the model (`Expr.deps` of a call = the
+dependencies of its arguments, left to right, as `binaryOperationDependencies` computes them). -/
+
+def plus (l r : Expr) : Expr := .call "+" [l, r]
+
+/-- `$.steps.a.outputs.success.s + boolToString($.steps.a.outputs.success.b) + $.steps.b.outputs.success.s`:
+two paths into `a`'s output (one DAG node), then `b` -/
+def abExpr : Expr :=
+  plus (plus (ref "a" ["outputs", "success", "s"]) (.call "boolToString" [ref "a" ["outputs", "success", "b"]]))
+    (ref "b" ["outputs", "success", "s"])
+
+example : Expr.deps abExpr = [["steps", "a", "outputs", "success", "s"], ["steps", "a", "outputs", "success", "b"],
+    ["steps", "b", "outputs", "success", "s"]] := by decide
+
+/-- three plugin steps and two loop steps over different sub-workflow files (the file is not part of the graph);
+`c` reads `a` in one input key and `a + a + b` in another; the output holds a `!wait-optional`, a `!soft-optional` and a
+plain reference to `a`, a two-source optional and the data of both loops -/
+def demoMulti : Wf :=
+  { inputFields := ["name"]
+    steps := [ { id := "a", kind := .plugin, fields := [("input", .map [("s", .expr (.dot (.dot .root "input") "name"))])] },
+               { id := "b", kind := .plugin, fields := [("input", .map [])] },
+               { id := "c", kind := .plugin,
+                 fields := [("input", .map [("i", .expr (ref "a" ["outputs", "success", "i"])), ("s", .expr abExpr)]),
+                            ("wait_for", .list [.expr (ref "a" ["outputs", "success", "s"]),
+                                                .expr (plus (ref "a" ["outputs", "success", "s"]) (ref "b" ["outputs", "success", "s"]))])] },
+               { id := "la", kind := .foreach,
+                 fields := [("items", .list [.map [("name", .expr (ref "a" ["outputs", "success", "s"]))]])] },
+               { id := "lb", kind := .foreach,
+                 fields := [("items", .list [.map [("name", .lit "x"), ("n", .expr (ref "b" ["outputs", "success", "i"]))]])] } ]
+    outputs := [("success", .map [
+        ("xw", .optional true (ref "a" ["outputs", "success", "s"])),
+        ("xo", .optional false (ref "a" ["outputs", "success", "i"])),
+        ("xp", .expr (ref "a" ["outputs", "success", "b"])),
+        ("mo", .optional true abExpr),
+        ("loop0", .expr (ref "la" ["outputs", "success", "data"])),
+        ("loop1", .optional true (ref "lb" ["outputs", "success", "data"]))])] }
+
+/-- the same with the back-edge hidden behind an already connected producer: `a` reads `b` and then `c` -/
+def demoHiddenCycle : Wf :=
+  { demoMulti with steps := demoMulti.steps.map (fun s =>
+      if s.id = "a" then { s with fields := [("input", .map [("l", .list [
+          .expr (ref "b" ["outputs", "success", "s"]),
+          .expr (plus (ref "b" ["outputs", "success", "s"]) (ref "c" ["outputs", "success", "s"]))])])] } else s) }
+
+example : verdictOf (prepare po demoMulti) = "accepted:88:117" := by decide +kernel
+example : verdictOf (prepare po demoHiddenCycle) = "rejected:cycle" := by decide +kernel
+
+/-- `c` is connected to `b` although its other input key (and the earlier references of the same expression) had
+already connected it to `a`; so is its wait_for list; the two-source optional group requires both sources -/
+example : ("steps.a.outputs.success", "steps.c.starting", Dep.and) ∈ impliedEdges po demoMulti
+    ∧ ("steps.b.outputs.success", "steps.c.starting", Dep.and) ∈ impliedEdges po demoMulti
+    ∧ ("steps.a.outputs.success", "outputs.success.mo", Dep.and) ∈ impliedEdges po demoMulti
+    ∧ ("steps.b.outputs.success", "outputs.success.mo", Dep.and) ∈ impliedEdges po demoMulti := by decide +kernel
+
+/-- wait-optional, soft-optional and plain reference to the same source in one object: two group nodes with their own
+edge kinds plus the direct `and` edge of the plain reference -/
+example : ("outputs.success.xw", "outputs.success", Dep.cand) ∈ impliedEdges po demoMulti
+    ∧ ("outputs.success.xo", "outputs.success", Dep.opt) ∈ impliedEdges po demoMulti
+    ∧ ("steps.a.outputs.success", "outputs.success.xw", Dep.and) ∈ impliedEdges po demoMulti
+    ∧ ("steps.a.outputs.success", "outputs.success.xo", Dep.and) ∈ impliedEdges po demoMulti
+    ∧ ("steps.a.outputs.success", "outputs.success", Dep.and) ∈ impliedEdges po demoMulti := by decide +kernel
+
+/-- without the plain reference the holder has NO direct edge from the source, of any kind -/
+def demoMixedOnly : Wf :=
+  { demoMulti with outputs := [("success", .map [
+        ("xw", .optional true (ref "a" ["outputs", "success", "s"])),
+        ("xo", .optional false (ref "a" ["outputs", "success", "i"]))])] }
+
+example : ∀ d : Dep, ("steps.a.outputs.success", "outputs.success", d) ∉ impliedEdges po demoMixedOnly
+      ∧ ("steps.a.outputs.success", "outputs.success", d) ∉ lifecycleEdges demoMixedOnly
+      ∧ ("steps.a.outputs.success", "outputs.success", d) ∉ stageOutEdges po demoMixedOnly := by
+  intro d
+  cases d <;> decide +kernel
+
+/-- both loop steps feed the output; each loop's data comes from its own step -/
+example : ("steps.la.outputs.success", "outputs.success", Dep.and) ∈ impliedEdges po demoMulti
+    ∧ ("steps.lb.outputs.success", "outputs.success.loop1", Dep.and) ∈ impliedEdges po demoMulti
+    ∧ ("steps.a.outputs.success", "steps.la.execute", Dep.and) ∈ impliedEdges po demoMulti
+    ∧ ("steps.b.outputs.success", "steps.lb.execute", Dep.and) ∈ impliedEdges po demoMulti := by decide +kernel
 
 end Arca.Props.C10
